@@ -196,6 +196,8 @@ def run_check(modname, tier, seed, workers=None, budget_s=None, only_index=None)
     if os.environ.get('VERIF_MAX_RUNS'):
         # self-tests only: a deterministic sub-sample of the plan (every k-th item)
         k = max(1, len(items) // int(os.environ['VERIF_MAX_RUNS']))
+        while k > 1 and (k % 2 == 0 or k % 3 == 0 or k % 5 == 0):
+            k += 1          # avoid aliasing with round-robin plans
         items = items[::k][:int(os.environ['VERIF_MAX_RUNS'])]
     if only_index is not None:
         items = [items[only_index]]
